@@ -207,7 +207,10 @@ def tally(rep, case, impl_res, ans):
     spec = case['spec']
     rep.count('curated:%s' % (spec.get('spike_clusters') is not None))
     wh = spec.get('whitening')
-    rep.count('whitening:%s%s' % ('none' if wh is None else ('nonsymmetric_' if any(wh[i][j] != wh[j][i] for i in range(len(wh)) for j in range(len(wh))) else 'diagonal_'), '' if wh is None else ('inv_file' if spec.get('whitening_inv') is not None else 'computed_inv')))
+    if wh is None and spec.get('whitening_inv') is not None:
+        rep.count('whitening:inverse_file_only')
+    else:
+        rep.count('whitening:%s%s' % ('none' if wh is None else ('nonsymmetric_' if any(wh[i][j] != wh[j][i] for i in range(len(wh)) for j in range(len(wh))) else 'diagonal_'), '' if wh is None else ('inv_file' if spec.get('whitening_inv') is not None else 'computed_inv')))
     nt = len(spec['templates'])
     used = set(spec['spike_templates'])
     for t, name in ((0, 'first'), (nt - 1, 'last')):
